@@ -1,5 +1,6 @@
 """C17 — a search pickled or interrupted at any point resumes faithfully."""
 import json
+import os
 import pickle
 import random
 
@@ -12,7 +13,7 @@ TITLE = "pickled / interrupted searches resume faithfully"
 COQ_PROPS = "Props/C17.v"
 COQ_RUN = ("Searcher.SlicingRun", "run_c17")
 GEN_TARGETS = []
-N = {"quick": 6000, "thorough": 24000}
+N = {"quick": 5000, "thorough": 20000}
 CASE_CPU_SECONDS = 30
 RULE = (
     "a universe (word universe with any pack, or table universe: random_universe, or - 85% - the best connected of "
@@ -23,44 +24,78 @@ RULE = (
     "pickling the searcher between two calls. Part A: the real _auto_search_rules runs under a fake clock (packets "
     "processed + scripted advances); (1) the packet counts at which has_specification is consulted and the outcome "
     "of every call (found / ExceededMaxtimeError / SpecificationNotFound) are compared with the control-flow model; "
-    "(2) table universes: the EVENT TRACE of every call (packets handed out by the real DefaultQueue, and per packet "
+    "(2) table universes (45% of the cases): the EVENT TRACE of every call (packets handed out by the real DefaultQueue, and per packet "
     "the ruledb.add calls, searcher-issued classdb.set_empty, classqueue.add/set_not_inferrable/set_stop_yielding) "
-    "and the final class database / tried_to_verify / symmetry_expanded / inferral_expanded are compared with the "
+    "and ALL the members of the final state - class database, tried_to_verify / symmetry_expanded / inferral_expanded, the "
+    "keys of both rule stores (in store order; sorted for RecomputingDict), RuleDBForest._already_empty and the whole "
+    "queue (working, next_level, curr_level, the three sets, queue_sizes, staging) - are compared with the "
     "packet-level state machine (Searcher/Step.v: C04 model + C16 queue model) run on the same table, the same "
     "script and the recorded is_verified / has_specification answers; (3) oracle, all universes: the concatenated "
     "traces of the slices equal the trace of ONE uninterrupted _expand_classes_for run that consults "
     "has_specification at the same packet counts, and so do the final states; every packet handed out is "
-    "processed. Part B (oracle): for several prefix lengths k the searcher is pickled after exactly k packets, the "
-    "copy must equal the original and have the sharing of the original object graph, original, copy and a copy "
-    "whose _pruned_dict cache was dropped are continued with identical calls and must produce identical ruledb.add "
-    "traces, class databases and answers, equal to the uninterrupted run; in thorough tier every k. Specifications "
-    "finally returned after interruptions are counted against brute force (word universes). Non-trivial: at least "
+    "processed. EVERY UNPICKLING (between two calls, and Part B: after exactly k packets for several prefix lengths k; "
+    "thorough tier: every k) is judged by the harness's own deep structural comparison of original and copy, not by "
+    "the library's __eq__: every member of every object reachable from the searcher (class database: the three lists "
+    "and their sharing between ClassDB and its two views; the queue: all deques, sets, counters; the rule database: "
+    "both stores with their strategies, the equivalence database - parents, weights, verified roots, both edge tables -, "
+    "the forest's table method; tried_to_verify, symmetry_expanded, inferral_expanded; the pack), dict orders and the "
+    "sharing of mutable objects included, sets as sets; only wall-clock timers / call counters are left out, and the "
+    "derived cache _pruned_dict may be absent in the copy (reported) but, when present, must be the original's. The "
+    "library's `copy == original` must hold too, and it is reported when == holds although the deep comparison finds a "
+    "difference. Part B: original, copy and a copy whose _pruned_dict was dropped are continued with identical calls "
+    "and must produce identical packets, events, ruledb.add traces, states and answers, equal to the uninterrupted run, and "
+    "at the end of the continuation original and copy are compared member by member again (up to the iteration order "
+    "of the union-find's dicts and the table method's bookkeeping for finished classes, which depend on set iteration "
+    "order - pickle does not keep it). In 4% of the cases the pickled bytes are ALSO loaded in a FRESH interpreter "
+    "(/venv/bin/python subprocess, PYTHONPATH as ./check sets it, another PYTHONHASHSEED) and continued there with "
+    "the same scripted calls (the rest of the Part A script under the fake clock / the Part B pattern); the observable compared with "
+    "the in-process continuation is the one the property words: the same packets (class, strategies, inferral) in "
+    "the same order, per packet the same MULTISET of rules found (parent, children, strategy), set_empty and queue "
+    "calls, the same outcomes of the calls, and at the end the same classes with emptiness, rule keys, verified set "
+    "{l : is_verified(l)}, equivalence classes, `already done` sets, remaining packets of the queue, "
+    "has_specification() answer and counts of the returned specification - classes named by str(), NOT by label "
+    "number (a different hash seed may legitimately permute the order in which a strategy's children are labelled); "
+    "whether the traces agree exactly, label numbers included, is recorded as a fact (on the unchanged tree they always "
+    "did). The specification finally returned (Part A after interruptions; Part B, for the restored searchers of the "
+    "fresh-interpreter cases and a third of the others: by the original AND by the restored searcher) is judged per "
+    "instance, word universes: the constructor accepts the rules, no class has two rules, every class reachable from the "
+    "start class has a rule, and every such class counts as brute force does for n < 6 (start class n < 8). Non-trivial: at least "
     "one interruption or pickling point strictly inside the run and >= 8 packets; distinct = distinct case."
 )
 TRUSTED = [
     "modelled, not verified: comb_spec_searcher.py _auto_search_rules/_expand_classes_for (control flow: "
-    "Searcher/Slicing.v; state transformation: Searcher/Step.v on top of the C04, C15 and C16 models) tied by Part A; "
-    "the fake clock replaces time.time in that module only",
+    "Searcher/Slicing.v; state transformation: Searcher/Step.v on top of the C04, C15 and C16 models) tied by Part A - "
+    "the control-flow triple on all universes, the state machine (event trace and full final state) on table universes "
+    "only; the fake clock replaces time.time in that module only",
     "the logging subclasses of this plugin (CountingQueue, LogDB_*, LogClassDB) and the instance-level wrappers of "
-    "has_specification / _expand / ruledb.is_verified",
-    "pickle's object-graph fidelity (shared lists in ClassDB, ruledb->searcher back reference) is Python runtime "
-    "behaviour outside any Gallina model (Searcher/Pickle.v makes the sharing explicit and shows the value-level "
-    "model cannot see it): covered by Part B and by the identity checks after every unpickling only",
+    "has_specification / _expand / ruledb.is_verified; the deep structural comparison _deep (walks __dict__ / __slots__: "
+    "state kept outside the instances - module globals, class attributes - is invisible to it and only shows through the "
+    "continuation)",
+    "pickle's object-graph fidelity is Python runtime behaviour outside any Gallina model: Searcher/Pickle.v's dump/load "
+    "is the identity on the members and is NOT extracted or run against pickle; what ties pickling to the property is the "
+    "oracle only (member-by-member comparison after every unpickling, continuation in-process and in a fresh "
+    "interpreter) and the AST scan for pickling hooks",
     "ruledb.is_verified and has_specification are not modelled: their answers are recorded from the real run and "
     "replayed (the theorems quantify over all answer sequences); the engines behind RuleDBBase's _pruned_dict cache "
     "are abstract in Searcher/Cache.v, their idempotence contract is checked on the real code at every pickling point",
 ]
 ASSUMPTIONS = [
     "the searcher's state after k packets is a deterministic function of the universe, the database flavour and the "
-    "history of has_specification() calls (pruning databases mark labels verified when asked) — validated by Parts A3 and B",
+    "history of has_specification() calls (pruning databases mark labels verified when asked) - validated by Parts A3 "
+    "and B in one process, and across processes (another hash seed) in the cases restored in a fresh interpreter",
     "C17_cache_transparent assumes that recomputing the pruned dictionary twice in a row changes nothing observable "
-    "(recompute_idem) — checked on the real code at every pickling point",
-    "no class of the package customises pickling (__getstate__/__setstate__/__reduce__/__reduce_ex__/__getnewargs__): "
-    "grepped on every run and reported in the evidence (extra_checks, information only); with such a hook the model's "
-    "dump/load is no longer a description of what pickle writes and only Part B / the pickling between calls decide",
+    "(recompute_idem) - checked on the real code at every pickling point",
+    "no class of the package customises pickling or copying (__getstate__/__setstate__/__reduce__/__reduce_ex__/"
+    "__getnewargs__/__deepcopy__/__copy__, copyreg, dispatch tables): decided by an AST scan of the package on every "
+    "run (extra_checks, a VERDICT: a hook makes Searcher/Pickle.v's reading of pickle void and is reported as a broken "
+    "tie, with or without a failing input)",
+    "C17_auto_search_fuel / C17_run_calls_fuel bound the fuel in terms of the packets the queue can still hand out "
+    "(n_avail - k, resp. packets_bounded s N); that a real search's queue is bounded is per instance (C17_packets_bounded_when_dry "
+    "gives the bound once a dry turn has been met)",
 ]
 
 PERCS = [1, 2, 5, 10, 20, 25, 50, 100]
+XPROC_FRACTION = 0.04
 
 
 def _reach(u):
@@ -127,6 +162,9 @@ def gen(rng, tier):
         calls.append([-1, [0] * 6])  # a last unlimited call
         case["calls"] = calls
         case["pickle_at"] = sorted({rng.randint(0, 40) for _ in range(3)})
+        # a fraction of the cases is ALSO restored in a fresh interpreter with another hash seed
+        case["xproc"] = rng.random() < XPROC_FRACTION
+        case["xseed"] = rng.randint(1, 2 ** 32 - 1)
         yield case
 
 
@@ -369,6 +407,235 @@ def _members(css):
             sorted(css.tried_to_verify), sorted(css.symmetry_expanded), sorted(css.inferral_expanded)]
 
 
+# ------------------------------------------------------------------ the harness's own deep structural comparison
+# Members that are statistics (wall-clock timers, call counters used only by status()): a change that does not
+# pickle them breaks nothing the property talks about; everything else a searcher owns IS compared.
+STAT_ATTRS = frozenset({"func_times", "func_calls", "func_yield", "_time_table_method", "_time_key", "_empty_time",
+                        "_empty_num_application"})
+# members of this plugin's logging subclasses (CountingQueue, LogDB_*, LogClassDB): not state of the library
+HARNESS_ATTRS = frozenset({"ctx", "log", "quiet", "events", "inside", "before_next", "depth", "handed", "dry_at"})
+
+
+def _qualname(t):
+    return "%s.%s" % (getattr(t, "__module__", "?"), getattr(t, "__qualname__", getattr(t, "__name__", repr(t))))
+
+
+CACHE_ATTRS = frozenset({"_pruned_dict"})   # derived caches: judged by _cache_problem, not member by member
+
+
+# dicts whose ITERATION ORDER is not state: filled in the order in which a set was iterated (RecomputingDict.rules ->
+# rules_up_to_equivalence -> first lookups in the union-find), and pickle does not keep a set's iteration order
+UNORDERED_AFTER_WORK = frozenset({"parents", "weights", "vertices", "_one_way_vertices"})
+
+
+# ... and the table method's bookkeeping for rules whose parent is done (TableMethod._set_infinite stops maintaining
+# their shifts and usage lists) depends on the order in which set.pop() hands out _rule_holding_extra_terms
+SKIP_AFTER_WORK = frozenset({"_pruned_dict", "_shifts", "_rules_using_class", "_rules_pumping_class"})
+
+
+def _deep(root, skip=frozenset(), unordered=frozenset()):
+    """The COMPLETE state reachable from `root` (a searcher) as nested lists of str/int, computed WITHOUT any
+    __eq__/__hash__/__iter__ of the library: objects are walked through their instance __dict__ (+ __slots__), dicts
+    through their items in insertion order (Counter / defaultdict included, with the default factory), lists, deques
+    and tuples element by element, sets as the sorted list of their elements (pickle does not keep a set's iteration
+    order).  SHARING is part of the picture: every mutable container / object gets a number at its first visit and a
+    later visit is rendered as ["ref", number] - two searchers have the same picture only if the same members are
+    one object in both (ClassDB's three lists and its two views, ruledb._searcher, the strategies shared by pack,
+    queue and rule store ...).  Statistics (STAT_ATTRS) and this plugin's own logging members are left out."""
+    import collections
+    import enum
+    import types
+
+    memo = {}
+    keep = []
+
+    def ssorted(items):
+        try:
+            return sorted(items)                       # ints, strs
+        except TypeError:
+            return sorted(items, key=_sortkey)
+
+    def walk(x, pure, sort_items=False):
+        t = type(x)
+        if t is int or t is str or x is None or t is bool:
+            return x
+        if t is tuple:
+            return ["t"] + [y if type(y) is int else walk(y, pure) for y in x]
+        if isinstance(x, (bool, int, str)):
+            return x
+        if isinstance(x, float):
+            return ["f", repr(x)]
+        if isinstance(x, bytes):
+            return ["b", x.hex()]
+        if isinstance(x, enum.Enum):
+            return ["enum", _qualname(type(x)), x.name]
+        if isinstance(x, (type, types.FunctionType, types.BuiltinFunctionType, types.MethodType)):
+            return ["fn", _qualname(x)]
+        if isinstance(x, tuple):
+            head = "t" if type(x) is tuple else "t:" + _qualname(type(x))
+            return [head] + [walk(y, pure) for y in x]
+        if isinstance(x, frozenset):
+            return ["fs"] + ssorted([walk(y, True) for y in x])
+        if not pure:
+            i = memo.get(id(x))
+            if i is not None:
+                return ["ref", i]
+            memo[id(x)] = len(memo)
+            keep.append(x)
+            tag = "#%d" % memo[id(x)]
+        else:
+            tag = ""
+        if isinstance(x, (list, collections.deque)):
+            return [("l" if isinstance(x, list) else "dq") + tag] + [walk(y, pure) for y in x]
+        if isinstance(x, (set,)):
+            return ["s" + tag] + ssorted([walk(y, True) for y in x])
+        if isinstance(x, dict):
+            head = "d"
+            if isinstance(x, collections.defaultdict):
+                head = "dd:" + (_qualname(x.default_factory) if x.default_factory is not None else "None")
+            elif type(x) is not dict:
+                head = "d:" + _qualname(type(x))
+            items = [[walk(k, pure), walk(v, pure)] for k, v in dict.items(x)]
+            return [head + tag] + (sorted(items, key=_sortkey) if sort_items else items)
+        # any other object: its class and its instance state
+        cls = type(x)
+        info = _CLASS_INFO.get(cls)
+        if info is None:
+            slots = [n for klass in cls.__mro__ if isinstance(getattr(klass, "__slots__", None), (tuple, list))
+                     for n in klass.__slots__ if n not in ("__dict__", "__weakref__")]
+            info = _CLASS_INFO[cls] = (_qualname(cls), slots,
+                                       STAT_ATTRS | (HARNESS_ATTRS if cls.__module__ == __name__ else frozenset()))
+        qn, slots, drop = info
+        state = {n: getattr(x, n) for n in slots if hasattr(x, n)}
+        d = getattr(x, "__dict__", None)
+        if isinstance(d, dict):
+            state.update(d)
+        elif not state:
+            return ["repr" + tag, qn, repr(x)]
+        return ["o" + tag, qn] + [[n, walk(state[n], pure, n in unordered)] for n in sorted(state)
+                                  if n not in drop and n not in skip]
+
+    return walk(root, False)
+
+
+_CLASS_INFO = {}
+
+
+def _sortkey(x):
+    return json.dumps(x, sort_keys=True)
+
+
+def _deep_diff(x, y, path="searcher"):
+    """None when the two pictures are equal, else where they first differ (a readable path)"""
+    if type(x) is not type(y):
+        return "%s: %s vs %s" % (path, _short(x), _short(y))
+    if not isinstance(x, list):
+        return None if x == y else "%s: %s vs %s" % (path, _short(x), _short(y))
+    if x == y:
+        return None
+    # an object: name the member
+    if x and y and isinstance(x[0], str) and x[0][:1] == "o" and isinstance(y[0], str) and y[0][:1] == "o":
+        if x[:2] != y[:2]:
+            return "%s: %s vs %s" % (path, _short(x[:2]), _short(y[:2]))
+        dx, dy = {m[0]: m[1] for m in x[2:]}, {m[0]: m[1] for m in y[2:]}
+        for n in sorted(set(dx) | set(dy)):
+            if n not in dx or n not in dy:
+                return "%s.%s: present in one searcher only" % (path, n)
+            r = _deep_diff(dx[n], dy[n], "%s.%s" % (path, n))
+            if r:
+                return r
+        return "%s: member order" % path
+    for i, (p, q) in enumerate(zip(x, y)):
+        r = _deep_diff(p, q, "%s[%d]" % (path, i - 1) if i else path + ":kind")
+        if r:
+            return r
+    return "%s: %d vs %d entries (%s vs %s)" % (path, len(x) - 1, len(y) - 1, _short(x[min(len(x), len(y)):]),
+                                                 _short(y[min(len(x), len(y)):]))
+
+
+def _short(x):
+    s = json.dumps(x)
+    return s if len(s) <= 90 else s[:87] + "..."
+
+
+def _cache_picture(css):
+    """the derived cache as the mapping it is (label -> set of tuples), None when absent"""
+    d = getattr(css.ruledb, "__dict__", {})
+    pd = d.get("_pruned_dict")
+    if pd is None:
+        return None
+    return ["mapping"] + sorted(([_deep(k), _deep(v)] for k, v in dict.items(pd)), key=_sortkey)
+
+
+def _copy_problem(a, b, where):
+    """A searcher `a` and what pickle made of it, `b`, compared by the harness's own deep structural comparison
+    (_deep: every member of every object, with the sharing).  -> (problem or None, facts).  The derived cache
+    RuleDBBase._pruned_dict is judged as a cache: the copy may come without it (it is recomputed on demand;
+    reported as a fact), but a cache the copy HAS must be the original's.  Separately: does the library's own
+    `==` see what the deep comparison sees?"""
+    facts = []
+    lib_eq = bool(b == a)
+    d = _deep_diff(_deep(a, CACHE_ATTRS), _deep(b, CACHE_ATTRS))
+    if d is None:
+        ca, cb = _cache_picture(a), _cache_picture(b)
+        if cb is None and ca is not None:
+            facts.append("copy_without_cache")
+        elif cb != ca:
+            d = _deep_diff(ca, cb, "searcher.ruledb._pruned_dict") or "searcher.ruledb._pruned_dict"
+            d += " [a stale derived cache: the original's is %s]" % ("absent" if ca is None else "different")
+    if d is not None:
+        if lib_eq:
+            facts.append("eq_blind")
+        return ("failing input: the searcher unpickled %s is not the original: %s%s" % (
+            where, d, "; the library's == nevertheless calls the two searchers equal" if lib_eq else "")), facts
+    if not lib_eq:
+        return "failing input: searcher unpickled %s is != the original" % where, facts
+    sp = _sharing_problem(b)
+    if sp:
+        return "failing input: after unpickling %s: %s" % (where, sp), facts
+    return None, facts
+
+
+EQ_BLIND = "library-eq-ignores-equivalence-database"
+
+
+def _eq_blind_probe(a, blob):
+    """Is the library's `==` a usable notion of `the restored searcher equals the original`?  Two searchers that
+    have processed the same packets, one of which has additionally been asked has_specification() (both are states a
+    search reaches): if the library calls them equal although their equivalence databases differ, RuleDBBase.__eq__
+    lets through exactly the kind of difference a faulty restore would make (verified set, union-find, edge tables).
+    -> description or None.  `a` is not touched."""
+    if not hasattr(a.ruledb, "equivdb"):
+        return None
+    c = pickle.loads(blob)
+    c.ruledb.has_specification()
+    if not c == a:
+        return None
+    oa, oc = _equiv_obs(pickle.loads(blob)), _equiv_obs(c)
+    if oa == oc:
+        return None
+    return "verified labels %r vs %r, %d vs %d equivalence classes" % (
+        [l for l, v in enumerate(oa[1]) if v], [l for l, v in enumerate(oc[1]) if v], len(set(map(tuple, oa[0]))), len(set(map(tuple, oc[0]))))
+
+
+def _full_members(css):
+    """table universes: the rest of the members of the model state (Searcher/Step.v `members`): the keys of the two
+    rule stores, RuleDBForest._already_empty and the queue"""
+    db, q = css.ruledb, css.classqueue
+    rules = [[s, list(e)] for s, e in db.rule_to_strategy] if hasattr(db, "rule_to_strategy") else []
+    eqv = [[s, list(e)] for s, e in db.eqv_rule_to_strategy] if hasattr(db, "eqv_rule_to_strategy") else []
+    if case_db_is_set(db):
+        rules, eqv = sorted(rules), sorted(eqv)      # RecomputingDict keeps its keys in a set
+    queue = [list(q.working), [[l, n] for l, n in q.next_level.items()], [list(d) for d in q.curr_level],
+             sorted(q._inferral_expanded), sorted(q._initial_expanded), sorted(q.ignore), list(q.queue_sizes),  # pylint: disable=protected-access
+             [[p.label, [x.sid for x in p.strategies], int(bool(p.inferral))] for p in q.staging]]
+    return [rules, eqv, sorted(getattr(db, "_already_empty", ())), queue]
+
+
+def case_db_is_set(db):
+    return type(getattr(db, "rule_to_strategy", None)).__name__ == "RecomputingDict"
+
+
 PACKET_LIMIT = 120
 
 
@@ -419,6 +686,137 @@ def _equiv_obs(css):
     return [part, [int(bool(eq.is_verified(l))) for l in labels]]
 
 
+# ------------------------------------------------------------------ the observable a restore in ANOTHER interpreter is judged by
+def _names(css):
+    cdb = css.classdb
+    return [str(cdb.get_class(l)) for l in range(len(cdb.comb_class_list))]
+
+
+def _packets_by_class(names, events):
+    """The work after a pickling point as the property words it - which classes are expanded with which strategies,
+    and what each packet produced - free of label NUMBERS: the sequence of packets (class, strategies, inferral),
+    each with the MULTISET of what was done for it (ruledb.add (parent, children, strategy), set_empty, the queue
+    calls), classes by str().  `names` must come from the class database at the END of the run."""
+    nm = lambda l: names[l] if isinstance(l, int) and 0 <= l < len(names) else "?%r" % (l,)  # noqa: E731
+    out = []
+    for e in events:
+        if e[0] == 20:
+            out.append([nm(e[1]), [str(s) for s in e[2]], e[3], []])
+        elif e[0] == 21:
+            out.append(["dry"])
+        elif e[0] == 0:
+            item = ["add", nm(e[1]), [nm(x) for x in e[2]], str(e[3]), str(e[4])]
+            (out[-1][3] if out and len(out[-1]) == 4 else out).append(item)
+        elif e[0] in (1, 2, 3, 4, 10):
+            item = [{1: "set_empty", 2: "q.add", 3: "q.not_inferrable", 4: "q.stop", 10: "q.verified"}[e[0]], nm(e[1])] + list(e[2:])
+            (out[-1][3] if out and len(out[-1]) == 4 else out).append(item)
+    for p in out:
+        if len(p) == 4 and isinstance(p[3], list):
+            p[3].sort(key=_sortkey)
+    return out
+
+
+def _xobs(css, events):
+    """What a searcher restored in another interpreter (other hash seed: other iteration orders of sets of str /
+    bytes keyed data, other ids) must share with the one continued here.  Everything is read through the library's
+    own accessors on a THROW-AWAY copy (they write: path compression, default entries) and classes are named by
+    str(), not by label number: the universe (classes with emptiness), the rule keys of both stores (forest: the
+    forest keys), the verified set {l : ruledb.is_verified(l)}, the equivalence classes, the three `already done`
+    sets, the packets the queue would still hand out, the has_specification() answer, and the work done since the
+    pickling point (_packets_by_class)."""
+    t = pickle.loads(pickle.dumps(css))
+    names = _names(t)
+    labels = range(len(names))
+    nm = lambda l: names[l] if 0 <= l < len(names) else "?%d" % l  # noqa: E731
+    db = t.ruledb
+    obs = {"classes": sorted([names[l], None if e is None else int(bool(e))] for l, e in zip(labels, t.classdb.empty_list))}
+    obs["work"] = _packets_by_class(names, events)
+    for attr in ("tried_to_verify", "symmetry_expanded", "inferral_expanded"):
+        obs[attr] = sorted(nm(l) for l in getattr(t, attr))
+    if hasattr(db, "rule_to_strategy"):
+        obs["rules"] = sorted([nm(s), sorted(nm(e) for e in ends)] for s, ends in db.rule_to_strategy)
+        obs["eqv_rules"] = sorted([nm(s), sorted(nm(e) for e in ends)] for s, ends in db.eqv_rule_to_strategy)
+    tm = getattr(db, "table_method", None)
+    if tm is not None and hasattr(tm, "_rules"):
+        obs["forest_keys"] = sorted(([nm(k.parent), [nm(c) for c in k.children], list(k.shifts), k.bucket.name]
+                                     for k in tm._rules), key=_sortkey)  # pylint: disable=protected-access
+    obs["has_spec"] = bool(t.has_specification())
+    obs["verified"] = sorted(names[l] for l in labels if db.is_verified(l))
+    if hasattr(db, "are_equivalent"):
+        obs["partition"] = sorted({tuple(sorted(names[m] for m in labels if db.are_equivalent(l, m))) for l in labels})
+    future = []
+    try:
+        for p in t.classqueue:
+            future.append([nm(p.label), [str(s) for s in p.strategies], int(bool(p.inferral))])
+            if len(future) >= 200:
+                break
+    except Exception as e:  # pylint: disable=broad-except
+        future.append("queue raised " + type(e).__name__)
+    obs["queue"] = future
+    return obs
+
+
+def _obs_diff(x, y):
+    """first key on which two _xobs dicts differ"""
+    for k in sorted(set(x) | set(y)):
+        if x.get(k) != y.get(k):
+            return "%s (%s)" % (k, _deep_diff(json.loads(json.dumps(x.get(k))), json.loads(json.dumps(y.get(k))), k))
+    return None
+
+
+NSPEC = 6
+
+
+def _spec_info(css, case):
+    """What get_specification_rules() of this searcher hands back: nothing, an exception, or the rules - with, on word
+    universes, the per-instance verdicts on the CombinatorialSpecification built from them (exactly these, nothing
+    more): the constructor accepts them, no class has two rules, every class reachable from the start class has a
+    rule (get_rule), and for every such class the specification counts as many objects of size n < NSPEC as brute
+    force finds (start class: n < 8).  MUTATES the searcher (RuleDBForgetStrategy labels classes): call it last."""
+    from comb_spec_searcher import CombinatorialSpecification
+    from comb_spec_searcher.exception import SpecificationNotFound
+
+    table = case["kind"] == "table"
+    random.seed(case.get("tree_seed", 0))
+    try:
+        rules = list(css.ruledb.get_specification_rules())
+    except SpecificationNotFound:
+        return {"kind": "none"}
+    except Exception as e:  # pylint: disable=broad-except
+        if not table:
+            raise
+        return {"kind": "error:" + type(e).__name__}      # nonsense table universes may break the extraction
+    info = {"kind": "rules",
+            "rules": sorted(([str(r.comb_class), [str(c) for c in r.children], str(r.strategy)] for r in rules), key=_sortkey)}
+    if table:
+        return info
+    bad = []
+    lhs = [r.comb_class for r in rules]
+    if len(set(lhs)) != len(lhs):
+        bad.append("two rules for one class")
+    spec = CombinatorialSpecification(css.start_class, rules)
+    info["counts"] = [spec.count_objects_of_size(n) for n in range(8)]
+    seen, todo = {spec.root}, [spec.root]
+    while todo:
+        c = todo.pop()
+        try:
+            rule = spec.get_rule(c)
+        except Exception as e:  # pylint: disable=broad-except
+            bad.append("no rule for %s (%s)" % (c, type(e).__name__))
+            continue
+        got = [rule.count_objects_of_size(n) for n in range(NSPEC)]
+        want = W.true_counts(c, NSPEC - 1)
+        if got != want:
+            bad.append("class %s counted %r, brute force %r" % (c, got, want))
+        for k in rule.children:
+            if k not in seen:
+                seen.add(k)
+                todo.append(k)
+    info["nclasses"] = len(seen)
+    info["bad"] = bad
+    return info
+
+
 def _recompute_idem_problem(css):
     """Searcher/Cache.v's contract on the real code: filling the _pruned_dict cache twice in a row finds the
     same dictionary, answers the same and leaves the observable equivalence database as it is"""
@@ -453,7 +851,8 @@ class _Hooks:
     def __init__(self, fake, blind=False):
         self.fake = fake
         self.blind = blind
-        self.cur = {"ds": [], "pts": None, "ans": None, "marks": None, "state": None, "members": None, "real_ans": []}
+        self.cur = {"ds": [], "pts": None, "ans": None, "marks": None, "state": None, "members": None, "full": None,
+                    "real_ans": []}
         self.events = []          # ("hand" | "isv" | "exp", label[, answer]) for the lost-packet accounting
         self.css = None
 
@@ -469,6 +868,7 @@ class _Hooks:
             # the state the call leaves behind, before a specification is extracted from it
             cur["state"] = _state(css)
             cur["members"] = _members(css) if css.classqueue.ctx.table else None
+            cur["full"] = _full_members(css) if css.classqueue.ctx.table else None
             fake.extra += cur["ds"].pop(0) if cur["ds"] else 0
             a = bool(orig_has())
             cur["real_ans"].append(a)
@@ -529,7 +929,8 @@ def _table_part(case, answers):
     mode = {"base": 0, "forget": 0, "forest_noreverse": 1, "forest": 2}[case["ruledb"]]
     empty, strats, ver, sym = P04._enc_universe(u)  # pylint: disable=protected-access
     p = u["pack"]
-    return [[mode, int(bool(case.get("expand_verified"))), 2 * u["ncls"] + 12, u["start"]], empty, strats, ver, sym,
+    return [[mode, int(bool(case.get("expand_verified"))), 2 * u["ncls"] + 12, u["start"], int(case["ruledb"] == "forget")],
+            empty, strats, ver, sym,
             list(p["inferral"]), list(p["initial"]), [list(x) for x in p["expansion"]], list(answers)]
 
 
@@ -568,33 +969,25 @@ def _uninterrupted(case, points, total, crashed):
     return [e for e in ctx.events[n_init:] if e[0] != 21], _state(ref), ans, exc
 
 
-def impl(case):
+def _run_calls(case, css, ctx, fake, ci0, out, ship=False):
+    """Part A proper: the calls case["calls"][ci0:] made on `css` under the fake clock, with the searcher saved and
+    restored between two calls when the case says so.  Used by impl() from the first call on, and - with ship -
+    by the child interpreter (_child_main) from the call after the pickling point on.  -> dict"""
     import comb_spec_searcher.comb_spec_searcher as mod
     from comb_spec_searcher.exception import ExceededMaxtimeError, SpecificationNotFound, StrategyDoesNotApply
 
-    out = {"problems": []}
     table = case["kind"] == "table"
-    # ---------------- Part A: control flow and event trace under the fake clock
-    random.seed(case.get("tree_seed", 0))
-    ctx = TraceCtx(table)
-    css = _make(case, ctx)
-    n_init = len(ctx.events)
-    init_events = [e for e in ctx.events if e[0] in (0, 1, 2, 3, 4)]
-    fake = _FakeTime()
     hooks = _Hooks(fake, bool(case.get("blind")))
     hooks.install(css)
     cur = hooks.cur
     real_time = mod.time
-    results, model_calls, step_calls = [], [], []
-    all_points = []
-    n_avail = 10 ** 6
-    final_spec_counts = None
-    crashed = None
-    end_mark = n_init
+    R = {"results": [], "model_calls": [], "step_calls": [], "all_points": [], "n_avail": 10 ** 6, "final_spec_counts": None,
+         "crashed": None, "end_mark": len(ctx.events), "job": None, "job_at": None, "facts": []}
     try:
         mod.time = fake
         ncalls = len(case["calls"])
-        for ci, (maxt, ds) in enumerate(case["calls"]):
+        for ci in range(ci0, ncalls):
+            maxt, ds = case["calls"][ci]
             cur["ds"], cur["pts"], cur["ans"], cur["marks"] = list(ds), [], [], []
             ev0 = len(ctx.events)
             try:
@@ -606,14 +999,14 @@ def impl(case):
                     from comb_spec_searcher import CombinatorialSpecification
 
                     spec = CombinatorialSpecification(css.start_class, rules)
-                    final_spec_counts = [spec.count_objects_of_size(n) for n in range(8)]
+                    R["final_spec_counts"] = [spec.count_objects_of_size(n) for n in range(8)]
                 else:
                     list(rules)
             except ExceededMaxtimeError:
                 code = 1
             except SpecificationNotFound:
                 code = 2
-                n_avail = css.classqueue.handed
+                R["n_avail"] = css.classqueue.handed
             except (KeyError, IndexError, StrategyDoesNotApply) as e:
                 # a table universe that breaks the strategy contracts kills the expansion; the model dies the same way
                 if not table or cur["ans"][-1:] == [True]:
@@ -623,43 +1016,216 @@ def impl(case):
                     out["problems"].append("table extraction: %s" % type(e).__name__)
                 else:
                     code = 4
-                    crashed = type(e).__name__
+                    R["crashed"] = type(e).__name__
             except (RuntimeError, ValueError, AssertionError) as e:
                 if not table:
                     raise
                 code = 0  # found, but concrete rules cannot be re-created in this table universe
                 out["problems"].append("table extraction: %s" % type(e).__name__)
             if css.classqueue.dry_at is not None:
-                n_avail = css.classqueue.dry_at
+                R["n_avail"] = css.classqueue.dry_at
             k = cur["pts"][-1] if cur["pts"] else css.classqueue.handed
             if code == 4:
                 k = css.classqueue.handed
-                end_mark = len(ctx.events)
-                cur["state"], cur["members"] = _state(css), _members(css)
+                R["end_mark"] = len(ctx.events)
+                cur["state"], cur["members"], cur["full"] = _state(css), _members(css), _full_members(css)
             else:
-                end_mark = cur["marks"][-1] if cur["marks"] else len(ctx.events)
-                results.append([code, k, list(cur["pts"])])
-            all_points.extend(cur["pts"])
-            model_calls.append([maxt, list(ds), [int(a) for a in cur["ans"]], int(code == 4)])
-            step_calls.append([code, k, list(cur["pts"]), _sevents(ctx, ctx.events[ev0:end_mark])])
+                R["end_mark"] = cur["marks"][-1] if cur["marks"] else len(ctx.events)
+                R["results"].append([code, k, list(cur["pts"])])
+            R["all_points"].extend(cur["pts"])
+            R["model_calls"].append([maxt, list(ds), [int(a) for a in cur["ans"]], int(code == 4)])
+            R["step_calls"].append([code, k, list(cur["pts"]), _sevents(ctx, ctx.events[ev0:R["end_mark"]])])
             if code in (0, 2, 4):
                 break
             if case.get("pickle_between") and ci + 1 < ncalls:
                 # an interrupted search is saved and restored: the next call is made on the COPY
                 hooks.remove()
-                copy_ = pickle.loads(pickle.dumps(css))
-                if not copy_ == css:
-                    out["problems"].append("failing input: searcher unpickled between two calls (after %d packets) is != the original" % css.classqueue.handed)
-                sp = _sharing_problem(copy_)
-                if sp:
-                    out["problems"].append("failing input: after unpickling (%d packets): %s" % (css.classqueue.handed, sp))
+                blob = pickle.dumps(css)
+                copy_ = pickle.loads(blob)
+                prob, facts = _copy_problem(css, copy_, "between two calls (after %d packets)" % css.classqueue.handed)
+                R["facts"].extend(facts)
+                if prob:
+                    out["problems"].append(prob)
+                if ship and R["job"] is None:
+                    # ... and, in a fraction of the cases, ALSO in a fresh interpreter, from the same bytes
+                    R["job"] = {"part": "A", "blob": blob, "ci": ci + 1, "extra": fake.extra, "mark": len(ctx.events),
+                                "uid": _uid_of(css)}
+                    R["job_at"] = {"results": len(R["results"]), "handed": css.classqueue.handed}
                 css = copy_
                 ctx = css.classqueue.ctx
                 hooks.install(css)
     finally:
         mod.time = real_time
         hooks.remove()
-    lost = _lost_packets(hooks.events, bool(case.get("expand_verified")))
+    R["css"], R["ctx"], R["cur"], R["hook_events"] = css, ctx, cur, hooks.events
+    return R
+
+
+def _child_env(case):
+    import comb_spec_searcher
+
+    env = dict(os.environ)
+    here = os.path.dirname(os.path.dirname(os.path.dirname(os.path.abspath(__file__))))
+    repo = os.path.dirname(os.path.dirname(os.path.abspath(comb_spec_searcher.__file__)))
+    env["PYTHONPATH"] = repo + os.pathsep + here            # as ./check sets it
+    env["PYTHONHASHSEED"] = str(int(case.get("xseed", 1)) or 1)
+    env["PYTHONDONTWRITEBYTECODE"] = "1"
+    return env
+
+
+CHILD_TIMEOUT = 600
+
+
+def _spawn_child(case, jobs):
+    """Load the pickled searchers of `jobs` in a FRESH interpreter (another PYTHONHASHSEED) and continue them there
+    with the same scripted calls.  -> list of results (one per job) or {"error": ...}"""
+    import base64
+    import subprocess
+    import sys
+
+    payload = {"case": case, "jobs": [dict(j, blob=base64.b64encode(j["blob"]).decode()) for j in jobs]}
+    try:
+        p = subprocess.run([sys.executable, "-c", "from harness.props import c17; c17._child_main()"],
+                           input=json.dumps(payload).encode(), capture_output=True, timeout=CHILD_TIMEOUT,
+                           env=_child_env(case), check=False)
+    except subprocess.TimeoutExpired:
+        return {"error": "the fresh interpreter did not finish within %ds" % CHILD_TIMEOUT}
+    if p.returncode != 0:
+        return {"error": "exit %d: %s" % (p.returncode, p.stderr.decode(errors="replace")[-600:])}
+    try:
+        return json.loads(p.stdout.decode().strip().splitlines()[-1])
+    except Exception as e:  # pylint: disable=broad-except
+        return {"error": "unreadable answer (%s): %s" % (e, p.stdout.decode(errors="replace")[-300:])}
+
+
+def _uid_of(css):
+    """table universes: the key under which the classes of this searcher look their table up (harness/universes/table.py)"""
+    return getattr(css.classdb.get_class(css.start_label), "uid", None)
+
+
+def _child_main():
+    """entry point of the fresh interpreter: stdin = JSON {case, jobs}, stdout = one JSON line"""
+    import base64
+    import logging
+    import sys
+
+    sys.setrecursionlimit(100000)
+    try:
+        import logzero
+
+        logzero.loglevel(logging.ERROR)
+        logging.getLogger().setLevel(logging.ERROR)
+    except Exception:  # pylint: disable=broad-except
+        pass
+    payload = json.loads(sys.stdin.buffer.read().decode())
+    case = payload["case"]
+    # what unpickling needs to find: the logging subclasses, and the table the classes of a table universe refer to
+    _queue_class()
+    _classdb_class()
+    _db_class(case["ruledb"])
+    answers = []
+    for job in payload["jobs"]:
+        try:
+            if case["kind"] == "table":
+                u = dict(case["universe"])
+                u["uid"] = job["uid"]
+                T.register(u)
+            css = pickle.loads(base64.b64decode(job["blob"]))
+            answers.append(_continue_job(case, css, job))
+        except BaseException as e:  # pylint: disable=broad-except
+            import traceback
+
+            answers.append({"exception": "%s: %s" % (type(e).__name__, e), "trace": traceback.format_exc()[-800:]})
+    sys.stdout.write("\n" + json.dumps({"hashseed": os.environ.get("PYTHONHASHSEED"), "pid": os.getpid(), "answers": answers}) + "\n")
+
+
+def _continue_job(case, css, job):
+    """continue a restored searcher with the scripted calls and describe what happened (same code in the parent
+    for the searcher continued in-process and in the child for the one restored from the bytes)"""
+    if job["part"] == "A":
+        fake = _FakeTime()
+        fake.extra = job["extra"]
+        out = {"problems": []}
+        R = _run_calls(case, css, css.classqueue.ctx, fake, job["ci"], out)
+        return _obs_A(case, R, job["mark"], 0, out)
+    n0, res = _continue_B(css, job["n"], job["pending"])
+    return _obs_B(case, css, res, job["mark"])
+
+
+def _obs_A(case, R, mark, first_result, out):
+    css, ctx = R["css"], R["ctx"]
+    raw = [R["results"][first_result:], ctx.events[mark:R["end_mark"]], R["cur"]["state"] or _state(css)]
+    return {"raw": raw, "x": dict(_xobs(css, ctx.events[mark:R["end_mark"]]), results=R["results"][first_result:],
+                                  counts=R["final_spec_counts"], crashed=R["crashed"]),
+            "problems": [p for p in out["problems"] if p.startswith("failing input")]}
+
+
+def _continue_B(x, n, pending_query):
+    if pending_query and x.has_specification():
+        return n, (n, x.ruledb.log, _state(x), True)
+    return n, _drive(x, n)
+
+
+def _obs_B(case, x, res, mark):
+    ev = x.classqueue.ctx.events[mark:]
+    obs = _xobs(x, ev)
+    spec = _spec_info(x, case)
+    return {"raw": [res[0], res[1], res[2], res[3], ev], "x": dict(obs, packets=res[0], found=res[3]), "spec": spec}
+
+
+def _judge_child(out, what, mine, theirs):
+    """the searcher continued here vs the one restored in the fresh interpreter"""
+    if "exception" in theirs:
+        out["problems"].append("failing input: %s: the searcher restored in a fresh interpreter (PYTHONHASHSEED=%s) "
+                               "failed: %s" % (what, out.get("xseed"), theirs["exception"]))
+        return
+    for p in theirs.get("problems", []):
+        out["problems"].append(p + " [in the fresh interpreter, %s]" % what)
+    d = _obs_diff(json.loads(json.dumps(mine["x"])), theirs["x"])
+    if d:
+        out["problems"].append("failing input: %s: restored in a fresh interpreter (PYTHONHASHSEED=%s) the search does not "
+                               "go on as it does here: %s" % (what, out.get("xseed"), d))
+        return
+    if "spec" in mine:
+        ms, ts = mine["spec"], theirs["spec"]
+        if ms["kind"] != ts["kind"] or ms.get("counts") != ts.get("counts") or ts.get("bad"):
+            out["problems"].append("failing input: %s: the specification returned in the fresh interpreter: %s %s %s, here: %s %s"
+                                   % (what, ts["kind"], ts.get("counts"), ts.get("bad"), ms["kind"], ms.get("counts")))
+            return
+        out["xfacts"].append("xspec_same_rules" if ms.get("rules") == ts.get("rules") else "xspec_other_rules")
+    out["xfacts"].append("xproc_exact" if json.loads(json.dumps(mine["raw"])) == theirs["raw"] else "xproc_same_up_to_order")
+
+
+def impl(case):
+    from comb_spec_searcher.exception import StrategyDoesNotApply
+
+    out = {"problems": [], "facts": [], "xfacts": [], "eq_blind": [], "xseed": case.get("xseed")}
+    table = case["kind"] == "table"
+    jobs, mine = [], []          # searchers shipped to the fresh interpreter / what their twins did here
+    # ---------------- Part A: control flow and event trace under the fake clock
+    random.seed(case.get("tree_seed", 0))
+    ctx = TraceCtx(table)
+    try:
+        css = _make(case, ctx)
+    except (KeyError, IndexError, StrategyDoesNotApply) as e:
+        if not table:
+            raise
+        # a table universe that breaks the strategy contracts already in __init__: nothing to interrupt or pickle
+        out.update({"out": [], "model_in": [0, 1, []], "results": [], "crashed": "init:" + type(e).__name__,
+                    "final_counts": None, "truth": None, "packets": 0, "pickled_at": [], "total_packets_A": 0})
+        return out
+    n_init = len(ctx.events)
+    init_events = [e for e in ctx.events if e[0] in (0, 1, 2, 3, 4)]
+    fake = _FakeTime()
+    R = _run_calls(case, css, ctx, fake, 0, out, ship=bool(case.get("xproc")))
+    css, ctx, cur = R["css"], R["ctx"], R["cur"]
+    results, crashed, end_mark = R["results"], R["crashed"], R["end_mark"]
+    out["facts"].extend(R["facts"])
+    if R["job"] is not None:
+        jobs.append(R["job"])
+        mine.append(("the searcher pickled between two calls after %d packets" % R["job_at"]["handed"],
+                     _obs_A(case, R, R["job"]["mark"], R["job_at"]["results"], {"problems": []})))
+    lost = _lost_packets(R["hook_events"], bool(case.get("expand_verified")))
     if lost is not None and crashed is None:
         out["problems"].append(
             "failing input: work packet %d (label %d) was taken from the queue but never processed "
@@ -668,7 +1234,7 @@ def impl(case):
     total = css.classqueue.handed
     # A3: one uninterrupted run with the same has_specification() consultations
     sliced = [e for e in ctx.events[n_init:end_mark] if e[0] != 21]
-    ref_events, ref_state, ref_ans, ref_exc = _uninterrupted(case, all_points, total, crashed is not None)
+    ref_events, ref_state, ref_ans, ref_exc = _uninterrupted(case, R["all_points"], total, crashed is not None)
     if crashed is None:
         flat_ans = list(cur["real_ans"])
         if ref_events != sliced:
@@ -676,7 +1242,7 @@ def impl(case):
             out["problems"].append(
                 "failing input: the event traces of the %d calls, concatenated, differ from the trace of the uninterrupted "
                 "run at event %d (%r instead of %r): the sliced search does not go through the same work"
-                % (len(step_calls), i, sliced[i] if i < len(sliced) else None, ref_events[i] if i < len(ref_events) else None)
+                % (len(R["step_calls"]), i, sliced[i] if i < len(sliced) else None, ref_events[i] if i < len(ref_events) else None)
             )
         elif ref_state != (cur["state"] or _state(css)):
             out["problems"].append("failing input: the searcher after the interrupted calls differs from the uninterrupted run (class database / expanded sets)")
@@ -684,20 +1250,20 @@ def impl(case):
             out["problems"].append("failing input: has_specification answers %r in the sliced run and %r in the uninterrupted run" % (flat_ans, ref_ans))
     elif ref_exc != crashed:
         out["problems"].append("the sliced run died with %s, the uninterrupted run with %s" % (crashed, ref_exc))
-    out["model_in"] = [n_avail, 100 // case["perc"], model_calls]
+    out["model_in"] = [R["n_avail"], 100 // case["perc"], R["model_calls"]]
     if table:
-        final = [ERR.get(crashed, 0) if crashed else 0, 0] + (cur["members"] or _members(css))
-        out["out"] = [results, [init_events, step_calls, final]]
+        final = [ERR.get(crashed, 0) if crashed else 0, 0] + (cur["members"] or _members(css)) + (cur["full"] or _full_members(css))
+        out["out"] = [results, [init_events, R["step_calls"], final]]
         out["model_in"].append(_table_part(case, ctx.answers))
     else:
         out["out"] = results
     out["results"] = results
     out["crashed"] = crashed
-    out["final_counts"] = final_spec_counts
+    out["final_counts"] = R["final_spec_counts"]
     out["truth"] = W.true_counts(W.start(case["start"]), 7) if case["kind"] == "word" else None
 
     # ---------------- Part B: pickle at k, continue both, compare with the uninterrupted run
-    ref = _make(case)
+    ref = _make(case, TraceCtx(table))
     try:
         npk, ref_trace, ref_state, ref_spec = _drive(ref, 0)
     except (KeyError, IndexError, StrategyDoesNotApply):
@@ -706,15 +1272,21 @@ def impl(case):
         out["packets"] = total
         out["pickled_at"] = []
         out["total_packets_A"] = total
+        _ship(case, out, jobs, mine)
         return out
+    ref_events_B = list(ref.classqueue.ctx.events)
     out["packets"] = npk
     # pickling points beyond the end of a short search are folded back into it
     ks = sorted({k if k <= npk else k % (npk + 1) for k in case["pickle_at"]})
     if case.get("every_k"):
         ks = list(range(npk + 1))
     out["pickled_at"] = ks
+    # the specification finally returned is extracted and judged for the cases restored in a fresh interpreter and
+    # for a third of the others (the extraction - minimisation in the forest flavours - costs as much as the search)
+    spec_done = not (case.get("xproc") or case.get("tree_seed", 0) % 3 == 0 or case.get("every_k"))
+    probed = False
     for k in ks:
-        a = _make(case)
+        a = _make(case, TraceCtx(table))
         # the same call pattern up to packet k (k <= npk: no True answer before)
         n = 0
         while n < k and _one_packet(a):
@@ -722,44 +1294,96 @@ def impl(case):
             if n % 7 == 0 and n < k:
                 a.has_specification()
         pending_query = n % 7 == 0 and n > 0 and n == k
-        b = pickle.loads(pickle.dumps(a))
-        if not b == a:
-            out["problems"].append("failing input: searcher unpickled after %d packets is != the original" % k)
+        mark = len(a.classqueue.ctx.events)
+        blob = pickle.dumps(a)
+        b = pickle.loads(blob)
+        prob, facts = _copy_problem(a, b, "after %d packets" % k)
+        out["facts"].extend(facts)
+        if prob:
+            out["problems"].append(prob)
             continue
         if _state(a) != _state(b):
             out["problems"].append("failing input: state differs right after unpickling at %d" % k)
             continue
-        sp = _sharing_problem(b)
-        if sp:
-            out["problems"].append("failing input: after unpickling at %d: %s" % (k, sp))
-            continue
+        if not out["eq_blind"] and not probed and k > 0:
+            probed = True                      # once per case: it is a fact about the library's ==, not about this k
+            eb = _eq_blind_probe(a, blob)
+            if eb:
+                out["eq_blind"].append("after %d packets: %s" % (k, eb))
         ip = _recompute_idem_problem(a)
         if ip:
             out["problems"].append("failing input: after %d packets: %s" % (k, ip))
         copies = [a, b]
         if getattr(a.ruledb, "_pruned_dict", None) is not None:
             # a third copy, without the derived cache: answers must not depend on its presence
-            c = pickle.loads(pickle.dumps(a))
+            c = pickle.loads(blob)
             c.ruledb._pruned_dict = None  # pylint: disable=protected-access
             copies.append(c)
         res_ab = []
         for x in copies:
-            if pending_query and x.has_specification():
-                res_ab.append((n, x.ruledb.log, _state(x), True))
-            else:
-                res_ab.append(_drive(x, n))
+            r = _continue_B(x, n, pending_query)[1]
+            res_ab.append(tuple(r) + (x.classqueue.ctx.events,))
         ra, rb = res_ab[0], res_ab[1]
         if ra != rb:
-            out["problems"].append("failing input: original and unpickled copy diverge after pickling at %d" % k)
-        elif len(res_ab) > 2 and res_ab[2] != ra:
+            what = ["packets", "ruledb.add trace", "class database / expanded sets", "has_specification()", "event trace"]
+            out["problems"].append("failing input: original and unpickled copy diverge after pickling at %d (%s)"
+                                   % (k, ", ".join(w for w, x, y in zip(what, ra, rb) if x != y)))
+            continue
+        if len(res_ab) > 2 and res_ab[2] != ra:
             out["problems"].append("failing input: a copy made after %d packets without the _pruned_dict cache diverges from the original (answers depend on the cache)" % k)
-        elif ra != (npk, ref_trace, ref_state, ref_spec):
+            continue
+        if ra != (npk, ref_trace, ref_state, ref_spec, ref_events_B):
             out["problems"].append(
-                "failing input: run pickled at %d differs from the uninterrupted run (packets %s, trace %s, state %s, spec %s)"
-                % (k, ra[0] == npk, ra[1] == ref_trace, ra[2] == ref_state, ra[3] == ref_spec)
+                "failing input: run pickled at %d differs from the uninterrupted run (packets %s, trace %s, state %s, spec %s, events %s)"
+                % (k, ra[0] == npk, ra[1] == ref_trace, ra[2] == ref_state, ra[3] == ref_spec, ra[4] == ref_events_B)
             )
+            continue
+        # ... and at the END of the continuation the two are still the same searcher, member by member
+        d = _deep_diff(_deep(a, SKIP_AFTER_WORK, UNORDERED_AFTER_WORK), _deep(b, SKIP_AFTER_WORK, UNORDERED_AFTER_WORK))
+        if d is None and _cache_picture(a) != _cache_picture(b):
+            d = "searcher.ruledb._pruned_dict"
+        if d:
+            out["problems"].append("failing input: original and copy unpickled after %d packets have gone through the same "
+                                   "calls (%d packets) but are no longer the same searcher: %s" % (k, ra[0], d))
+            continue
+        ship = bool(case.get("xproc")) and len(jobs) < 3
+        if ship:
+            jobs.append({"part": "B", "blob": blob, "n": n, "pending": pending_query, "mark": mark, "uid": _uid_of(a)})
+            mine.append(("the searcher pickled after %d packets" % k, _obs_B(case, b, rb, mark)))
+        if ra[3] and (ship or not spec_done):
+            # the specification finally returned by the original and by the restored searcher
+            spec_done = True
+            sa = _spec_info(a, case)
+            sb = mine[-1][1]["spec"] if ship else _spec_info(b, case)
+            if sa["kind"] != sb["kind"] or sa.get("counts") != sb.get("counts"):
+                out["problems"].append("failing input: pickled after %d packets and continued, the original returns %s %s, the restored searcher %s %s"
+                                       % (k, sa["kind"], sa.get("counts"), sb["kind"], sb.get("counts")))
+            for who, si in (("original", sa), ("restored searcher", sb)):
+                if si.get("bad"):
+                    out["problems"].append("failing input: pickled after %d packets and continued, the specification the %s returns: %s" % (k, who, "; ".join(si["bad"][:3])))
+                elif si.get("counts") is not None and si["counts"] != out["truth"]:
+                    out["problems"].append("failing input: pickled after %d packets and continued, the specification the %s returns counts %r, brute force %r" % (k, who, si["counts"], out["truth"]))
+            out["facts"].append("spec_same_rules" if sa.get("rules") == sb.get("rules") else "spec_other_rules")
+            out["facts"].append("spec_checked:" + sa["kind"].split(":")[0])
     out["total_packets_A"] = total
+    _ship(case, out, jobs, mine)
     return out
+
+
+def _ship(case, out, jobs, mine):
+    if not jobs:
+        return
+    ans = _spawn_child(case, jobs)
+    out["xproc_jobs"] = len(jobs)
+    if "error" in ans:
+        out["problems"].append("failing input: restoring the pickled searcher in a fresh interpreter (PYTHONHASHSEED=%s): %s"
+                               % (case.get("xseed"), ans["error"]))
+        return
+    out["child"] = [ans.get("hashseed"), ans.get("pid")]
+    if str(ans.get("hashseed")) == str(os.environ.get("PYTHONHASHSEED")) or ans.get("pid") == os.getpid():
+        out["problems"].append("harness: the fresh interpreter is not fresh (hash seed %s, pid %s)" % (ans.get("hashseed"), ans.get("pid")))
+    for (what, m), t in zip(mine, ans["answers"]):
+        _judge_child(out, what, m, t)
 
 
 def _lost_packets(events, expand_verified):
@@ -795,13 +1419,19 @@ def encode_with(case, res):
     return res.get("model_in", [0, 1, []])
 
 
+# what a table universe that breaks the strategy contracts makes the engine raise (anything else - and any timeout -
+# is reported)
+TABLE_EXCEPTIONS = ("KeyError", "IndexError", "StrategyDoesNotApply", "AssertionError", "RuntimeError", "ValueError",
+                    "RecursionError")
+
+
 def oracle(case, res):
     if "exception" in res:
-        if case["kind"] == "table" and "CaseTimeout" not in res["exception"]:
+        if case["kind"] == "table" and res["exception"].split(":")[0] in TABLE_EXCEPTIONS:
             return None  # nonsense table universes may break the engine before anything is returned
         return "search raised " + res["exception"]
     for p in res["problems"]:
-        if p.startswith("failing input"):
+        if p.startswith("failing input") or p.startswith("harness:"):
             return p
     # control-flow facts decided directly on the real run
     n_avail, mult, calls = res["model_in"][:3]
@@ -819,7 +1449,19 @@ def oracle(case, res):
     if res.get("final_counts") is not None and res["final_counts"] != res["truth"]:
         return "specification returned after interruptions counts %r, brute force %r" % (
             res["final_counts"], res["truth"])
+    # last, so that it never hides anything else: the library's == as a notion of `equals the original`
+    if res.get("eq_blind"):
+        return EQ_BLIND_WHY + res["eq_blind"][0]
     return None
+
+
+EQ_BLIND_WHY = ("the library's == calls two searchers equal whose equivalence databases differ (same universe, same "
+                "packets processed, one of them additionally asked has_specification()): ")
+
+
+def finding_match(case, why):
+    """the known finding (known_findings.json, kind open): RuleDBBase.__eq__ ignores the equivalence database"""
+    return EQ_BLIND if str(why).startswith(EQ_BLIND_WHY) else None
 
 
 def nontrivial(case, res):
@@ -847,46 +1489,159 @@ def classify(case, res):
         npk = sum(1 for c in res["out"][1][1] for e in c[3] if e[0] == 0)
         tags.append("step_packets<=5" if npk <= 5 else "step_packets<=20" if npk <= 20 else "step_packets>20")
     tags.append("pickle_points=%d" % len(res.get("pickled_at", [])))
+    for f in sorted(set(res.get("facts", []) + res.get("xfacts", []))):
+        tags.append(f)
+    if res.get("xproc_jobs"):
+        tags.append("restored_in_fresh_interpreter")
+    if res.get("eq_blind"):
+        tags.append("library_eq_blind_to_equivdb")
     return tags
 
 
-PICKLE_HOOKS = ("__getstate__", "__setstate__", "__reduce__", "__reduce_ex__", "__getnewargs__", "__getnewargs_ex__", "copyreg")
+PICKLE_HOOKS = ("__getstate__", "__setstate__", "__reduce__", "__reduce_ex__", "__getnewargs__", "__getnewargs_ex__",
+                "__deepcopy__", "__copy__")
 
 
-def _pickle_hooks_in_package():
-    """source lines of the package that customise pickling (the model's dump/load = "pickle writes the instance
-    __dict__s" describes the code only while there are none)"""
-    import os
-    import re
+def _pickle_hooks_in_package(root=None):
+    """AST scan of every module of the package for anything that changes what pickle writes or reads for an instance:
+    a method or class-level assignment named like a pickling / copying hook (PICKLE_HOOKS), any use of the copyreg
+    module (import, copyreg.pickle, dispatch tables), a setattr(cls, "<hook>", ...) or a string naming a hook used
+    as an attribute name.  Searcher/Pickle.v's dump/load (`pickle writes the instance __dict__s and reads them
+    back`) describes the package only while this finds nothing.  -> (hits, number of files scanned, problems)"""
+    import ast
 
     import comb_spec_searcher
 
-    root = os.path.dirname(comb_spec_searcher.__file__)
-    pat = re.compile(r"\b(" + "|".join(PICKLE_HOOKS) + r")\b")
-    hits = []
-    for d, _, files in os.walk(root):
-        for f in files:
-            if f.endswith(".py"):
-                with open(os.path.join(d, f)) as fh:
-                    for i, line in enumerate(fh, 1):
-                        if pat.search(line) and not line.lstrip().startswith("#"):
-                            hits.append("%s:%d: %s" % (os.path.relpath(os.path.join(d, f), root), i, line.strip()[:80]))
-    return hits
+    root = root or os.path.dirname(comb_spec_searcher.__file__)
+    hits, nfiles, problems = [], 0, []
+    for d, _, files in sorted(os.walk(root)):
+        for f in sorted(files):
+            if not f.endswith(".py"):
+                continue
+            path = os.path.join(d, f)
+            rel = os.path.relpath(path, root)
+            nfiles += 1
+            try:
+                with open(path, encoding="utf-8") as fh:
+                    tree = ast.parse(fh.read(), filename=path)
+            except (SyntaxError, OSError, UnicodeDecodeError) as e:
+                problems.append("%s: cannot be parsed (%s)" % (rel, type(e).__name__))
+                continue
+
+            def hit(node, what, rel=rel):
+                hits.append("%s:%d: %s" % (rel, getattr(node, "lineno", 0), what))
+
+            class V(ast.NodeVisitor):
+                def __init__(self):
+                    self.cls = []
+
+                def visit_ClassDef(self, node):
+                    self.cls.append(node.name)
+                    self.generic_visit(node)
+                    self.cls.pop()
+
+                def _fn(self, node):
+                    if node.name in PICKLE_HOOKS:
+                        hit(node, "%s defines %s" % (".".join(self.cls) or "<module>", node.name))
+                    self.generic_visit(node)
+
+                visit_FunctionDef = _fn
+                visit_AsyncFunctionDef = _fn
+
+                def visit_Assign(self, node):
+                    for t in node.targets:
+                        for n in ast.walk(t):
+                            if (isinstance(n, ast.Name) and n.id in PICKLE_HOOKS) or (isinstance(n, ast.Attribute) and n.attr in PICKLE_HOOKS):
+                                hit(node, "%s assigns %s" % (".".join(self.cls) or "<module>", getattr(n, "id", getattr(n, "attr", "?"))))
+                    self.generic_visit(node)
+
+                def visit_AnnAssign(self, node):
+                    n = node.target
+                    if (isinstance(n, ast.Name) and n.id in PICKLE_HOOKS) or (isinstance(n, ast.Attribute) and n.attr in PICKLE_HOOKS):
+                        hit(node, "%s assigns %s" % (".".join(self.cls) or "<module>", getattr(n, "id", getattr(n, "attr", "?"))))
+                    self.generic_visit(node)
+
+                def visit_Import(self, node):
+                    for a in node.names:
+                        if a.name.split(".")[0] == "copyreg":
+                            hit(node, "imports copyreg")
+
+                def visit_ImportFrom(self, node):
+                    if (node.module or "").split(".")[0] == "copyreg":
+                        hit(node, "imports from copyreg")
+
+                def visit_Name(self, node):
+                    if node.id == "copyreg":
+                        hit(node, "uses copyreg")
+
+                def visit_Attribute(self, node):
+                    if node.attr in ("dispatch_table", "reducer_override"):
+                        hit(node, "uses %s" % node.attr)
+                    self.generic_visit(node)
+
+                def visit_Constant(self, node):
+                    if isinstance(node.value, str) and node.value in PICKLE_HOOKS:
+                        hit(node, "names %s in a string (setattr / getattr?)" % node.value)
+
+            V().visit(tree)
+    return hits, nfiles, problems
+
+
+def _scan_selftest():
+    """the scanner itself: it must see each kind of hook in a small synthetic package and nothing in a clean one"""
+    import shutil
+    import tempfile
+
+    d = tempfile.mkdtemp(prefix="c17scan")
+    try:
+        samples = {
+            "a.py": "class A:\n    def __getstate__(self):\n        return {}\n",
+            "b.py": "import copyreg\n",
+            "c.py": "class C:\n    __reduce__ = None\n",
+            "d.py": "class D:\n    pass\nsetattr(D, '__setstate__', lambda s, st: None)\n",
+            "e.py": "class E:\n    def __deepcopy__(self, memo):\n        return self\n",
+            "clean.py": "class F:\n    def __init__(self):\n        self.x = 1\n    def getstate(self):\n        return 1\n",
+        }
+        for n, src in samples.items():
+            with open(os.path.join(d, n), "w") as fh:
+                fh.write(src)
+        hits, n, problems = _pickle_hooks_in_package(d)
+        seen = {h.split(":")[0] for h in hits}
+        return seen == {"a.py", "b.py", "c.py", "d.py", "e.py"} and n == 6 and not problems, sorted(seen)
+    finally:
+        shutil.rmtree(d, ignore_errors=True)
 
 
 def extra_checks(ctx):
-    """every tier: no class customises pickling; thorough tier: pickle at EVERY prefix length for a few universes"""
+    """every tier: the pickling-hook scan (a verdict), what the fresh interpreters saw; thorough tier: pickle at EVERY
+    prefix length for a few universes"""
     res = []
-    hits = _pickle_hooks_in_package()
-    # information, not a verdict: a harmless hook would not break the property; Part B and the pickling between
-    # calls are what decides.  Reported so that the evidence says whether Searcher/Pickle.v's reading of pickle
-    # ("writes the instance __dict__s") still describes the package.
-    res.append((
-        "information: classes of the package that customise pickling (none = Searcher/Pickle.v's dump/load "
-        "describes what pickle writes)",
-        True,
-        ("FOUND: " + "; ".join(hits[:5])) if hits else "grep for %s: nothing" % ", ".join(PICKLE_HOOKS),
-    ))
+    ok_self, seen = _scan_selftest()
+    res.append(("the pickling-hook scanner sees every kind of hook in a synthetic package and none in a clean module",
+                ok_self, "flagged: %s" % seen))
+    hits, nfiles, problems = _pickle_hooks_in_package()
+    # A verdict: Searcher/Pickle.v reads pickle as `writes the instance __dict__s, reads them back`; a class that
+    # customises pickling (or copying) makes that premise void, whether or not the customisation is harmful - the tie
+    # between C17_pickle_roundtrip / C17_pickle_commutes and the code is then broken and only the oracle (Part B, the
+    # pickling between calls, the fresh interpreter) speaks about pickling.
+    results = [r[0] if isinstance(r, tuple) else r for r in ctx.impl_res]        # core keeps (result, verdict, nontrivial)
+    failing = [w for c, r in zip(ctx.cases, results) for w in [oracle(c, r)] if w and finding_match(c, w) is None]
+    detail = "AST scan of %d modules for %s, copyreg, dispatch tables: nothing" % (nfiles, ", ".join(PICKLE_HOOKS))
+    if hits or problems:
+        detail = ("the premise of Searcher/Pickle.v (`pickle writes the instance __dict__s`) no longer describes the package: "
+                  + "; ".join((hits + problems)[:6]))
+        detail += (" - a failing input was found by the oracle (see the failing-input replay)" if failing else
+                   " - the oracle found no input on which a restored searcher misbehaves")
+    res.append(("no class of the package customises pickling or copying (the model's reading of pickle applies)",
+                not (hits or problems), detail))
+    # the restores in a fresh interpreter: how many, and how close to the in-process continuation they were
+    jobs = sum(int(r.get("xproc_jobs", 0)) for r in results if isinstance(r, dict))
+    xf = {}
+    for r in results:
+        for f in (r.get("xfacts", []) if isinstance(r, dict) else []):
+            xf[f] = xf.get(f, 0) + 1
+    res.append(("information: searchers restored in a fresh interpreter (other PYTHONHASHSEED) among the retained cases",
+                True, "%d searchers; %s" % (jobs, ", ".join("%s=%d" % kv for kv in sorted(xf.items())) or "-")))
     if ctx.tier != "thorough":
         return res
     rng = random.Random(ctx.seed + 17)
@@ -896,6 +1651,7 @@ def extra_checks(ctx):
         if n > 24:
             break
         case["every_k"] = True
+        case["xproc"] = False
         case["calls"] = [[-1, [0]]]
         try:
             r = impl(case)
@@ -913,11 +1669,14 @@ def extra_checks(ctx):
 
 TECHNIQUE = (
     "Coq proof (the searcher as a packet-level state machine built from the C04/C15/C16 models; its time-sliced "
-    "drivers under an arbitrary clock equal the uninterrupted iteration; control flow of the sliced search) + "
-    "extracted-model/implementation event-trace correspondence across interruptions and pickling + pickle/resume oracle"
+    "drivers, under a clock that counts packets and advances by scripted non-negative amounts at has_specification "
+    "calls, equal the uninterrupted iteration; the control-flow model is the state machine's control flow; fuel bounds; "
+    "the C04 conclusions for every sliced run) + extracted-model/implementation correspondence of event traces and "
+    "full final state across interruptions + pickle/resume oracle with a harness-side deep comparison and restores in "
+    "a fresh interpreter"
 )
 LEVEL_TEXT = (
-    "State transformation (Searcher/Step.v, proofs StepProofs.v): `step` = one turn of the loop of _expand_classes_for "
+    "State transformation (Searcher/Step.v, proofs StepProofs.v, Resume.v): `step` = one turn of the loop of _expand_classes_for "
     "(next of the C16 queue model, get_class, the is_verified gate, _expand of the C04 model, the queue calls of the "
     "packet applied to the queue); _expand_classes_for (with its last_label cache) and _auto_search_rules are "
     "transcribed on top with the clock of Slicing.v. For every strategy table, database mode, pack, expand_verified, "
@@ -925,42 +1684,69 @@ LEVEL_TEXT = (
     "every is_verified answer stream and every state satisfying the C04 invariant (C17_reachable: every state "
     "reachable from __init__): C17_slicing_independent (the state after the calls, whatever they return or raise, is "
     "`iterate step n` of the state before and the concatenated events of the calls are the events of that "
-    "uninterrupted iteration, n = number of next(queue) calls), C17_no_packet_lost (at every point of the sliced run "
-    "a packet handed out by the queue is followed by its complete processing and the application of its queue "
-    "calls), C17_packet_count (the clock's packet counter advances by exactly the number of packets among the events), "
-    "C17_dry_is_stable (a turn that finds the queue dry changes nothing from then on), C17_notfound_means_dry "
-    "(SpecificationNotFound only right after a next(queue) that found the queue dry), C17_resume_composes / "
-    "C17_calls_compose (iterate (k1+k2) = iterate k2 after iterate k1; a script split "
-    "anywhere), C17_queue_total, C17_state_is_members (step gives the same result on states with the same members "
-    "and its result is nothing but members - true by construction of step, made meaningful by the correspondence), "
-    "C17_pickle_roundtrip / C17_pickle_commutes (dump/load on the members, with the sharing of the object graph "
-    "explicit: load(dump s) = s, step and iterate commute with it at every point of a run), C17_cache_transparent / "
-    "C17_cache_invariant (RuleDBBase's _pruned_dict: histories of add / has_specification / is_verified that differ "
-    "only in where the cache was dropped answer the same, given that recomputing the dictionary is idempotent). "
-    "Control flow (Slicing.v): C17_resume_from / C17_notfound_only_when_exhausted / C17_exceeded_only_past_limit as "
-    "before. The models are tied to the code by running the real _auto_search_rules under a fake clock on table "
-    "universes and comparing, call by call, decision points, outcomes, the event trace (packets of the real queue, "
-    "ruledb.add, set_empty, queue calls) and the final members with the extracted state machine; an oracle compares "
-    "the sliced (and pickled-between-calls) run with one uninterrupted run and pickles at sampled (thorough: all) k."
+    "uninterrupted iteration, n = number of next(queue) calls), C17_no_packet_lost, C17_packet_count, "
+    "C17_dry_is_stable, C17_notfound_means_dry, C17_resume_composes / C17_calls_compose, C17_queue_total, "
+    "C17_state_is_members (true by construction of step). NEW: C17_control_flow_is_state_machine (a call of the state "
+    "machine that does not die in the expansion returns exactly what the control-flow model Slicing.auto_search returns "
+    "for the n_avail that describes its queue) and C17_state_machine_control_flow (hence decisions only between packets "
+    "at counts in [k, k + packets processed], Found only at the first true answer, Exceeded only past a set limit, "
+    "NotFound only at the queue's own exhaustion point right after a dry turn - statements about the state machine, no "
+    "longer about a parameter); C17_auto_search_fuel (fuel > n_avail - k excludes OutOfFuel of the control-flow model; "
+    "the bound is tight) and C17_run_calls_fuel (for the state machine: if the queue can hand out at most N more "
+    "packets and every call's script has at least N - 1 has_specification answers, no call answers OutOfFuel; "
+    "C17_packets_bounded_when_dry supplies N), so the control-flow theorems are no longer conditional on an unbounded "
+    "fuel; C17_resumed_search_rules_from_table / C17_resumed_from_any_state_rules_from_table / "
+    "C17_resumed_search_labels / C17_resumed_search_emptiness_truthful (the conclusions of C04 - every ruledb.add and every "
+    "stored key justified by the strategy table w.r.t. the final class database, labels injective and stable, under the "
+    "table contracts truthful emptiness and exact keys - for EVERY script of calls, i.e. for every interrupted / resumed "
+    "run; C04 states them for one uninterrupted packet list; that the packets carry strategies of the pack, a hypothesis "
+    "of C04's theorems, is here a theorem about the C16 queue model: Searcher/QueuePack.v); C17_resumed_search_gives_add_hist "
+    "and C17_resumed_search_find_rule_total (COMPOSITION with C14/C02, pruning databases, tables honouring the contracts, "
+    "unary symmetries, faithful rule objects: after EVERY script of calls the class database and the key sets of the two rule "
+    "stores are those of a RuleDB state reached by an add_hist history, the emptiness cache is truthful, and C02's model of "
+    "SpecificationRuleExtractor._find_rule turns every key of rule_to_strategy and of eqv_rule_to_strategy back into a rule "
+    "filed under that key - C04_search_gives_add_hist / C02_search_find_rule_total for interrupted and resumed searches; "
+    "ghost predicate Gres of Searcher/ResumeHist.v, which unlike C04's does not mention the trace the state machine "
+    "forgets between packets). Control flow (Slicing.v): C17_resume_from / "
+    "C17_notfound_only_when_exhausted (about the parameter n_avail) / C17_exceeded_only_past_limit. Pickle.v / Cache.v: "
+    "C17_pickle_roundtrip / C17_pickle_commutes (dump/load on the members: load(dump s) = of_members(members_of s), = s "
+    "on the normal states step produces; true by construction, NOT tied to pickle), C17_cache_transparent / "
+    "C17_cache_invariant (an abstract invalidate-on-add cache). The state machine is tied to the code by running the "
+    "real _auto_search_rules under the fake clock on TABLE universes and comparing, call by call, decision points, "
+    "outcomes, the event trace and, at the end, every member of the model state (class database, the three sets, both "
+    "rule stores' keys, _already_empty, the complete queue); word universes tie the control-flow triple only."
 )
 LEVEL_NOTE = (
-    "Correspondence-only, by nature: (1) the fidelity of CPython's pickle on the object graph - that "
-    "pickle.loads(pickle.dumps(x)) rebuilds objects with the same __dict__s AND the same sharing (ClassDB's three lists "
-    "each shared by the ClassDB, its ClassToInfo and its LabelToInfo; ruledb._searcher pointing back at the searcher). "
-    "Searcher/Pickle.v models dump/load as the identity on the members with the sharing explicit, proves "
-    "load(dump s) = s and that step commutes with it (trivial in Gallina - which is the point) and shows by an Example "
-    "that the value-level model cannot distinguish a shared list from three equal copies; the harness checks object "
-    "identity after every unpickling and that original, copy and uninterrupted run go through the same work. (2) "
-    "ruledb.is_verified and has_specification are inputs of the model (answer streams): for the pruning databases "
-    "has_specification() marks labels verified, so the state is not a function of the packet count alone; the "
-    "theorems say `given the same answers`. The equivalence database / forest tables are therefore represented by "
-    "what ruledb.add is handed (events) and by the answers read back, not as data. (3) C17_cache_transparent is a "
-    "statement about the invalidate-on-add discipline over ABSTRACT engines (recompute, root_in); the idempotence "
-    "contract is checked on the real code at every pickling point, and a copy without the cache is run alongside "
-    "original and pickled copy. C17_state_is_members and the pickle theorems are true by construction of the model. "
-    "That the specification finally returned satisfies C01/C02 is those properties' theorems (they hold for every "
-    "reachable state); here the returned specification of word universes is counted against brute force. "
-    "An expansion that dies with an exception (table universes breaking the strategy contracts) is followed by the "
-    "model up to that point (outcome Crashed), the control-flow model skips such a call. "
-    "Trusted: Coq kernel, extraction, harness, the fake clock, the logging subclasses."
+    "Correspondence / oracle only, and nothing more: (1) PICKLING. Searcher/Pickle.v is the identity on the members; it "
+    "is not extracted and not run against pickle. What is checked is per instance: after every unpickling original and "
+    "copy are compared member by member by the harness (not by the library's __eq__, which for RuleDB / "
+    "RuleDBForgetStrategy ignores the equivalence database - a known finding reported by this check, see "
+    "findings/c17_eq_ignores_equivdb.py), they are continued side by side, and in a fraction of the cases the bytes are "
+    "restored in a fresh interpreter with another hash seed; the AST scan decides whether a class customises pickling. "
+    "(2) ruledb.is_verified and has_specification are inputs of the models (answer streams): for the pruning databases "
+    "has_specification() marks labels verified, so the state is not a function of the packet count alone; the theorems "
+    "say `given the same answers`, i.e. they ASSUME that a restored rule database answers as the original; that it does "
+    "is the oracle's verdict (verified set and equivalence classes compared directly after unpickling and at the end). "
+    "(3) C17_cache_transparent is about ABSTRACT engines (recompute, root_in), never instantiated with the C05/C06 models; the "
+    "idempotence contract is checked on the real code at every pickling point, and a copy without the cache is run "
+    "alongside. (4) `WHATEVER SPECIFICATION IT FINALLY RETURNS SATISFIES C01/C02`: a theorem only for ONE ingredient of C02 - "
+    "C17_resumed_search_find_rule_total: on the rule database an interrupted / resumed search leaves (pruning flavours, "
+    "table-level hypotheses), _find_rule is total and files every rule under its key. There is NO theorem that the "
+    "specification extracted from such a state is closed / has one rule per class / is productive (C02_closed speaks about "
+    "`extract` under a find_path contract, C02's constructor theorems about wf_input; neither is derived from a reachable "
+    "searcher state), none for the forest flavours, and none for C01 (C01_spec_correct needs per-specification "
+    "hypotheses genuine / local / pumps). What is "
+    "checked for those is per instance, word universes only: the specification returned after interruptions (Part A), and by the "
+    "original and the restored searcher after pickling (Part B sample, fresh-interpreter cases), is accepted by the "
+    "CombinatorialSpecification constructor, has one rule per class, a rule for every class reachable from the start class, "
+    "and counts every such class as brute force does (n < 6; start class n < 8). Table universes: only that original and "
+    "restored searcher end the extraction the same way (rules / same exception). (5) An expansion that dies with an "
+    "exception (table universes breaking the strategy contracts) is followed by the state machine up to that point "
+    "(outcome Crashed); the control-flow model skips such a call; a universe on which already "
+    "CombinatorialSpecificationSearcher.__init__ raises (a `symmetry` mapping an empty class to a non-empty one makes "
+    "RuleDBForest._add_empty_rule call EmptyStrategy on a non-empty class: StrategyDoesNotApply) has nothing to interrupt or "
+    "pickle and is recorded as crashed = init:... (6) The clock family is packets + scripted "
+    "non-negative integer advances at has_specification calls; every slicing into slices of >= 1 packet is reachable "
+    "that way, other clocks are not modelled. Trusted: Coq kernel, extraction, harness, the fake clock, the logging "
+    "subclasses, the child-process protocol."
 )
